@@ -122,6 +122,7 @@ def step (st : St) (args : List String) : St × String × String :=
   | ["windh", pA, vA, q] =>
       let r := windowDelete s (decPath pA) vA.toNat! (decPath q)
       both r.1 r.2
+  | "cdel" :: _ => (st, "mon=ok", "mon=ok")   -- conditional delete vs an update through a retained handle: Go-side monitor
   | "stress" :: _ => (st, "ok", "ok")
   | _ => (st, "bad-op", "bad-op")
 
